@@ -45,7 +45,7 @@ def run_history(ctx, seed):
         minr = rng.choice([0, 1])
         maxr = rng.choice([2, 3])
         v2cfg = (core, max(mx, core), minr, maxr)
-    pw = PoolWorld(seed, proto, K=K, thr=3 * K // 4, nodes=nodes, p_preempt=rng.choice([0.0, 0.1, 0.3]), never_convict=never, v2cfg=v2cfg,
+    pw = PoolWorld(seed, proto, K=K, thr=3 * K // 4, nodes=nodes, p_preempt=rng.choice([0.0, 0.1, 0.3, 0.5]), never_convict=never, v2cfg=v2cfg,
                    chunking=rng.random() < 0.3)
     env, world, net, plan = pw.env, pw.world, pw.net, pw.plan
     nsteps = rng.randint(4, 30)
@@ -175,6 +175,15 @@ def run_history(ctx, seed):
             info['overload_prelude'] = True
             if rng.random() < 0.7:
                 burst = rng.randint(1, 5)
+                ps = pw.pools()
+                if ps and rng.random() < 0.6:
+                    # concurrent borrowers on threads of their own (an application calling the session from several threads): each can be
+                    # parked at a lock while the replacement completes
+                    for _ in range(rng.randint(2, 3)):
+                        u = new_uid()
+                        kinds[u] = 'direct-rows'
+                        world.spawn(lambda u=u, p=ps[0]: pw.direct_request(p, u, 'rows'), name='borrower-%d' % u)
+                    steps_log.append(('borrower-threads',))
                 for _ in range(burst):
                     u = new_uid()
                     kinds[u] = 'rows'
